@@ -42,6 +42,25 @@ func c19Size(c *Ctx, k int) uint64 {
 // c19Reused is one Reader that is Reset onto header after header (its past: every header before).
 var c19Reused *lz4.Reader
 
+// c19Companion: an empty valid frame without [0] and with [1] a content-size field (12345).
+var c19Companion = func() [2][]byte {
+	var out [2][]byte
+	for k := 0; k < 2; k++ {
+		h := binary.LittleEndian.AppendUint32(nil, ref.MagicFrame)
+		flg := byte(0x60)
+		if k == 1 {
+			flg |= 0x08
+		}
+		h = append(h, flg, 0x40)
+		if k == 1 {
+			h = binary.LittleEndian.AppendUint64(h, 12345)
+		}
+		h = append(h, ref.HeaderChecksum(h[4:]))
+		out[k] = append(h, 0, 0, 0, 0)
+	}
+	return out
+}()
+
 func init() {
 	register("C19", &PropDef{
 		Total: func(c *Ctx) int64 { return int64(256*c19NumSizes(c)) + 1 },
@@ -115,11 +134,15 @@ func c19Run(c *Ctx, i int64) {
 				var uerr error
 				var usize int
 				if c.Guard("Reader.Read", func() {
+					// its past: a valid header of the other kind (with a content size of 12345 if this one has
+					// none, without one if this one has), read to the end
 					if c19Reused == nil {
-						c19Reused = lz4.NewReader(bytes.NewReader(hdr))
+						c19Reused = lz4.NewReader(bytes.NewReader(c19Companion[b2i(!hasSize)]))
 					} else {
-						c19Reused.Reset(bytes.NewReader(hdr))
+						c19Reused.Reset(bytes.NewReader(c19Companion[b2i(!hasSize)]))
 					}
+					_, _ = c19Reused.Read(rbuf[:])
+					c19Reused.Reset(bytes.NewReader(hdr))
 					un, uerr = c19Reused.Read(rbuf[:])
 					usize = c19Reused.Size()
 				}) {
